@@ -48,6 +48,13 @@ struct op_counters {
     unsigned long atomic_ops = 0, fences = 0, mutex_ops = 0, cv_ops = 0, weak_cas_fail_injected = 0;
 };
 inline op_counters g_ops;
+// bookkeeping must stay invisible to TSan (plain accesses in a no_sanitize function are not instrumented)
+#if defined(__clang__)
+#define VERIF_NOTSAN __attribute__((no_sanitize("thread"), noinline))
+#else
+#define VERIF_NOTSAN __attribute__((no_sanitize_thread, noinline))
+#endif
+VERIF_NOTSAN inline void ops_inc(unsigned long op_counters::*m) { (g_ops.*m)++; }
 inline constexpr std::memory_order cas_failure_order(std::memory_order m) {
     return m == std::memory_order_acq_rel ? std::memory_order_acquire
          : m == std::memory_order_release ? std::memory_order_relaxed : m;
@@ -73,7 +80,7 @@ struct verif_atomic {
         vrt::point(vrt::K_LOAD, this);
         T v = _a.load(mo);
         verif_detail::note_weak_read(id(), mo);
-        verif_detail::g_ops.atomic_ops++;
+        verif_detail::ops_inc(&verif_detail::op_counters::atomic_ops);
         vrt::point(vrt::K_LOAD, this);
         return v;
     }
@@ -81,7 +88,7 @@ struct verif_atomic {
     void store(T v, memory_order mo = memory_order_seq_cst) noexcept {
         vrt::point(vrt::K_STORE, this);
         _a.store(v, mo);
-        verif_detail::g_ops.atomic_ops++;
+        verif_detail::ops_inc(&verif_detail::op_counters::atomic_ops);
         vrt::point(vrt::K_STORE, this);
     }
     T operator=(T v) noexcept { store(v); return v; }
@@ -89,7 +96,7 @@ struct verif_atomic {
         vrt::point(vrt::K_RMW, this);
         T r = _a.exchange(v, mo);
         verif_detail::note_weak_read(id(), mo);
-        verif_detail::g_ops.atomic_ops++;
+        verif_detail::ops_inc(&verif_detail::op_counters::atomic_ops);
         vrt::point(vrt::K_RMW, this);
         return r;
     }
@@ -101,12 +108,12 @@ struct verif_atomic {
             // failed comparison that loaded the current value
             exp = _a.load(f);
             ok = false;
-            verif_detail::g_ops.weak_cas_fail_injected++;
+            verif_detail::ops_inc(&verif_detail::op_counters::weak_cas_fail_injected);
         } else {
             ok = _a.compare_exchange_strong(exp, des, s, f);
         }
         if (!ok) verif_detail::note_weak_read(id(), f); else verif_detail::note_weak_read(id(), s);
-        verif_detail::g_ops.atomic_ops++;
+        verif_detail::ops_inc(&verif_detail::op_counters::atomic_ops);
         vrt::point(vrt::K_CAS, this);
         return ok;
     }
@@ -117,7 +124,7 @@ struct verif_atomic {
         vrt::point(vrt::K_CAS, this);
         bool ok = _a.compare_exchange_strong(exp, des, s, f);
         if (!ok) verif_detail::note_weak_read(id(), f); else verif_detail::note_weak_read(id(), s);
-        verif_detail::g_ops.atomic_ops++;
+        verif_detail::ops_inc(&verif_detail::op_counters::atomic_ops);
         vrt::point(vrt::K_CAS, this);
         return ok;
     }
@@ -127,7 +134,7 @@ struct verif_atomic {
 #define VERIF_RMW(name) \
     template<class U = T, class A = std::atomic<T>> auto name(U v, memory_order mo = memory_order_seq_cst) noexcept -> decltype(std::declval<A&>().name(v, mo)) { \
         vrt::point(vrt::K_RMW, this); auto r = _a.name(v, mo); verif_detail::note_weak_read(id(), mo); \
-        verif_detail::g_ops.atomic_ops++; vrt::point(vrt::K_RMW, this); return r; }
+        verif_detail::ops_inc(&verif_detail::op_counters::atomic_ops); vrt::point(vrt::K_RMW, this); return r; }
     VERIF_RMW(fetch_add) VERIF_RMW(fetch_sub) VERIF_RMW(fetch_and) VERIF_RMW(fetch_or) VERIF_RMW(fetch_xor)
 #undef VERIF_RMW
     T operator++() noexcept { return fetch_add(1) + 1; }
@@ -172,7 +179,7 @@ inline void verif_atomic_thread_fence(memory_order mo) noexcept {
         l.n = 0;
     }
 #endif
-    verif_detail::g_ops.fences++;
+    verif_detail::ops_inc(&verif_detail::op_counters::fences);
     vrt::point(vrt::K_FENCE, nullptr);
 }
 
@@ -186,7 +193,7 @@ struct verif_mutex {
     void lock() {
         vrt::mutex_acquire(&_st, true);
         _m.lock();
-        verif_detail::g_ops.mutex_ops++;
+        verif_detail::ops_inc(&verif_detail::op_counters::mutex_ops);
         vrt::point(vrt::K_MUTEX, this);
     }
     bool try_lock() {
@@ -211,14 +218,14 @@ struct verif_condition_variable {
     verif_condition_variable(const verif_condition_variable &) = delete;
     verif_condition_variable &operator=(const verif_condition_variable &) = delete;
 
-    void notify_one() noexcept { verif_detail::g_ops.cv_ops++; vrt::cv_notify(this, false); }
-    void notify_all() noexcept { verif_detail::g_ops.cv_ops++; vrt::cv_notify(this, true); }
+    void notify_one() noexcept { verif_detail::ops_inc(&verif_detail::op_counters::cv_ops); vrt::cv_notify(this, false); }
+    void notify_all() noexcept { verif_detail::ops_inc(&verif_detail::op_counters::cv_ops); vrt::cv_notify(this, true); }
 
     // returns true on time-out
     bool wait_impl(std::unique_lock<verif_mutex> &lk, uint64_t deadline) {
         verif_mutex *m = lk.mutex();
         vrt::point(vrt::K_CV, this);
-        verif_detail::g_ops.cv_ops++;
+        verif_detail::ops_inc(&verif_detail::op_counters::cv_ops);
         if (vrt::fault(vrt::K_CV)) {
             // spurious wake-up: release, let others run, re-acquire, return
             m->unlock_nopoint();
